@@ -52,13 +52,23 @@ func checkC13(c *fw.Ctx) {
 		return
 	}
 	for name, fn := range map[string]*ssa.Function{"Sign": sign, "VerifyHTTPRequest": verify} {
-		ok := false
-		for _, call := range fw.CallsTo(fn, false, fw.NameIs("encoding/json.Marshal")) {
-			if s := fw.Sig(call.Common().Args[0]); strings.HasSuffix(s, ".fields") {
+		ok, other := false, ""
+		for _, dc := range deepCallsTo(fn, fw.NameIs("encoding/json.Marshal")) {
+			if s := fw.SigIn(dc.Fr, dc.Call.Common().Args[0]); strings.HasSuffix(s, ".fields") || strings.Contains(s, ".fields") {
 				ok = true
+			} else {
+				other = s
 			}
 		}
-		c.Check(ok, "1 signed-object", name+" serialises the request's `fields` struct with encoding/json", c.P.Pos(fn.Pos()), "", "json.Marshal is not applied to the fields struct")
+		construct := name + " serialises the request's `fields` struct with encoding/json"
+		switch {
+		case ok:
+			c.Ok("1 signed-object", construct, c.P.Pos(fn.Pos()), "")
+		case other != "":
+			c.Fail("1 signed-object", construct, c.P.Pos(fn.Pos()), "json.Marshal is applied to "+other+", not to the fields struct")
+		default:
+			c.Undecided("1 signed-object", construct, "no json.Marshal was found in the routine or its helpers")
+		}
 	}
 	for _, call := range fw.CallsTo(sign, false, fw.NameIs("gmsl.SignJSON")) {
 		s := argSigs(call)
@@ -123,6 +133,25 @@ func checkC13(c *fw.Ctx) {
 				continue
 			}
 			n++
+			if f == "RequestURI" {
+				// RequestURI() of a URL the rule cannot identify with the request's own (held in a
+				// field of a request object, say) is not evidence of a rebuilt URL: only a URL value
+				// constructed locally is
+				if cc, _ := fw.CallOf(fw.Unwrap(st.Val)); cc != nil && fw.CalleeName(cc) == "(*net/url.URL).RequestURI" && len(cc.Common().Args) > 0 && !wantStores[f].src(fw.Unwrap(st.Val)) {
+					arg := cc.Common().Args[0]
+					rebuilt := false
+					if a, isAlloc := fw.Origin(arg).(*ssa.Alloc); isAlloc && strings.HasSuffix(a.Type().String(), "net/url.URL") {
+						rebuilt = true
+					}
+					if c2, _ := fw.CallOf(fw.Origin(arg)); c2 != nil && strings.HasPrefix(fw.CalleeName(c2), "net/url.Parse") {
+						rebuilt = true
+					}
+					if !rebuilt {
+						c.Undecided("2 reconstruction", construct, "RequestURI() is taken of "+fw.SigIn(di.Fr, arg)+", which the rule could not identify with the request's own URL")
+						continue
+					}
+				}
+			}
 			c.CheckDerives(st.Val, di.Fr, fw.FlowSpec{IsSource: wantStores[f].src, All: true}, "2 reconstruction", construct, c.P.Pos(fw.InstrPos(st)), "",
 				fmt.Sprintf("field %s is reconstructed from %s: what is verified differs from what was signed for some requests (e.g. percent-escapes in the path)", f, fw.SigIn(di.Fr, st.Val)))
 		}
@@ -375,6 +404,20 @@ func checkC13(c *fw.Ctx) {
 		}, func(r fw.Row) string {
 			if r.Outcome == "value:nil" || r.Outcome == "accept" {
 				return "value:nil" // a nil *FederationRequest is the refusal
+			}
+			if r.Val != nil && fw.AlwaysNilResult(r.Val) {
+				return "value:nil" // `return refuse(...)`: a helper that never hands back a request
+			}
+			if len(r.Ret.Results) > 0 && fw.AlwaysNilResult(r.Ret.Results[0]) {
+				return "value:nil"
+			}
+			// the request object that was read: the acceptance. Anything else (a field of a result
+			// struct built elsewhere, a value computed by a helper) is not classified here
+			if r.Outcome == "reject" || strings.Contains(r.Outcome, "readHTTPRequest") || strings.HasPrefix(r.Outcome, "value:local:") || strings.HasPrefix(r.Outcome, "value:&") {
+				return "value:ok" // a pointer that is known not to be nil / the request that was read
+			}
+			if strings.HasPrefix(r.Outcome, "value:") && strings.Contains(r.Outcome, "(") && strings.Contains(r.Outcome, ").") {
+				return r.Outcome // a field of something a helper built: not classified here
 			}
 			return "value:ok"
 		})
